@@ -34,6 +34,7 @@ MIN_REACH = {
     "resows_refused": {"quick": 15, "thorough": 60},
     "reloads_by_same_constructor_call": {"quick": 150, "thorough": 1200},
     "identical_resows_accepted": {"quick": 5, "thorough": 20},
+    "resows_after_a_cleaning_reap": {"quick": 20, "thorough": 50},
 }
 TIME_BUDGET = {"quick": 300, "thorough": 3000}
 
@@ -83,6 +84,9 @@ def cases(ctx):
                 n1 = max(1, n0 + rr.choice([0, 0, -1, 1, -2, 2, -(n0 // max(1, val)), -3, 3]))
                 yield {"resow": True, "n0": n0, "n1": n1, "mode": mode, "val": val, "reload": rr.random() < 0.5,
                        "cases": rr.random() < 0.4}
+                # second use of the same Crop object: sow, grow, reap (which deletes the crop), sow again
+                yield {"resow": True, "n0": n0, "n1": n0 if rr.random() < 0.7 else n1, "mode": mode, "val": val, "reload": False,
+                       "cases": rr.random() < 0.4, "after_reap": True}
     rng = ctx.rng("sampled")
     for i in range(ctx.pick(250, 3000)):
         w = cropkit.gen_workload(rng, nmax=48, exotic=True)
@@ -154,6 +158,10 @@ def run_resow(ctx, case):
     with quiet():
         crop = xyzpy.Crop(fn=fn, name="c7", parent_dir=tmp, **{case["mode"]: case["val"]})
         cropkit.sow(crop, wl(case["n0"]))
+        if case.get("after_reap"):
+            crop.grow_missing()
+            crop.reap()
+            ctx.count("resows_after_a_cleaning_reap")
     before = cropkit.tree_snapshot(cropkit.crop_dir(tmp, "c7"))
     err = None
     try:
@@ -171,7 +179,7 @@ def run_resow(ctx, case):
             bad.append("sowing the same %d settings again (%s=%d, %s crop) was refused: %r" % (
                 case["n0"], case["mode"], case["val"], "reloaded" if case["reload"] else "same", err))
         after = cropkit.tree_snapshot(cropkit.crop_dir(tmp, "c7"))
-        if {k: v for k, v in after.items() if "batches" in k} != {k: v for k, v in before.items() if "batches" in k}:
+        if {k: v for k, v in (after or {}).items() if "batches" in k} != {k: v for k, v in (before or {}).items() if "batches" in k}:
             bad.append("a refused re-sow (%r) changed the batch files" % (err,))
     else:
         ctx.count("resows_accepted")
@@ -193,6 +201,14 @@ def run_resow(ctx, case):
         B = len(files)
         if sorted(files) != list(range(1, B + 1)) or any(v == 0 for v in sizes.values()):
             bad.append("batch ids %s / sizes %s after the re-sow" % (sorted(files), sizes))
+        if case["n1"] == case["n0"]:
+            # the same request as the first time: the same size / count must be honoured
+            N = case["n0"]
+            wantB = min(case["val"], N) if case["mode"] == "num_batches" else math.ceil(N / case["val"])
+            if B != wantB or (case["mode"] == "num_batches" and sizes and max(sizes.values()) - min(sizes.values()) > 1) \
+                    or (case["mode"] == "batchsize" and sizes and max(sizes.values()) > case["val"]):
+                bad.append("sowing the same %d settings again%s (%s=%d) gave %d batches of sizes %s, the request means %d" % (
+                    N, " after reaping" if case.get("after_reap") else "", case["mode"], case["val"], B, sorted(sizes.values()), wantB))
         with quiet():
             c3 = xyzpy.Crop(name="c7", parent_dir=tmp)
             rep = (c3.num_batches, c3.num_sown_batches)
@@ -201,7 +217,7 @@ def run_resow(ctx, case):
     for msg in bad[:2]:
         ctx.violation(case, msg, dict(sig, oracle=" ".join(msg.split(" ")[:3])))
     ctx.rmtree(tmp)
-    ctx.observe(case, key=("resow", case["n0"], case["n1"], case["mode"], case["val"], case["reload"], case["cases"]),
+    ctx.observe(case, key=("resow", case["n0"], case["n1"], case["mode"], case["val"], case["reload"], case["cases"], bool(case.get("after_reap"))),
                 nontrivial=True, info={"refused": repr(err)[:80] if err else None, "batches": len(files)})
 
 
